@@ -18,8 +18,9 @@ HAZ = [
     ("___", ["___"]), ("```", ["```"]), ("```x", ["```qza"]), ("~~~", ["~~~"]), ("|", ["|"]), ("|-|", ["|-|"]),
     (":-:", [":-:"]), ("<div>", ["<div>"]), ("- -", ["-", "-"]), ("* * *", ["*", "*", "*"]), ("_ _ _", ["_", "_", "_"]),
     ("-x", ["-qza"]), ("1.x", ["1.qza"]), ("#x", ["#qza"]), ("[x]:", ["[qza]:"]), ("+x", ["+qza"]),
+    ("**", ["**"]), ("** *", ["**", "*"]), ("__ _", ["__", "_"]), ("_____", ["_____"]), ("-|-", ["-|-"]), ("~~~x", ["~~~qza"]), ("####### ", ["#######"]),
 ]
-HAZ_QUICK = ["-", "+", "*", "1.", "1)", "#", "##", ">", ">x", "---", "===", "***", "```", "~~~", "|-|", "- -", "* * *"]
+HAZ_QUICK = ["-", "+", "*", "1.", "1)", "#", "##", ">", ">x", "--", "---", "=", "===", "***", "___", "```", "```x", "~~~", "|-|", "- -", "* * *", "_ _ _", "** *"]
 
 ATOMS = [
     ("tag", ["{% qza qzb %}"]), ("tag-close", ["{% /qza %}"]), ("jcomment", ["{# qza qzb #}"]), ("var", ["{{ qza }}"]),
@@ -136,6 +137,25 @@ BLOCKS: list[tuple[str, str]] = [
     ("item-quote-first", "- > qaa qab\n  > qac\n- qad\n"),
     ("item-heading-first", "- # qaa\n\n  qab qac\n- qad\n"),
     ("quote-list-first", "> - - qaa qab\n>   - qac\n"),
+    ("ol-digit-gain-para", "9. qaa\n10. qab qac\n\n    qad qae\n11. qaf\n"),
+    ("ol-digit-gain-nested", "8. qaa\n9. qab\n10. qac\n    - qad\n    - qae\n"),
+    ("ol-digit-gain-code", "99. qaa\n100. qab\n\n     ```\n     x\n     ```\n"),
+    ("ol-start-0", "0. qaa qab\n1. qac\n"),
+    ("quote-heading", "> ## qaa qab\n>\n> qac qad qae\n"),
+    ("quote-heading-last", "> qaa qab\n>\n> ## qac\n\nqad qae\n"),
+    ("quote-heading-only", "> # qaa\n"),
+    ("alert-heading", "> [!TIP]\n> # qaa\n> qab qac\n"),
+    ("quote-list-heading", "> - qaa\n>\n>   ## qab\n> - qac qad\n"),
+    ("nested-quote-heading", "> > # qaa\n> > qab\n>\n> qac\n"),
+    ("footnote-heading", "[^n]: qaa\n\n    ## qab\n\n    qac qad\n"),
+    ("icode-inner-fence-0", "qaa\n\n    x\n    ```\n    y\n\nqab\n"),
+    ("icode-inner-fence-1", "qaa\n\n    x\n     ```\n    y\n\nqab\n"),
+    ("icode-inner-fence-2", "qaa\n\n    x\n      ````\n    y\n\nqab\n"),
+    ("icode-inner-fence-3", "qaa\n\n    x\n       ```\n    y\n\nqab\n"),
+    ("icode-inner-fence-4", "qaa\n\n    x\n        ```\n    y\n\nqab\n"),
+    ("icode-inner-fence-list", "- qaa\n\n      x\n         ```\n      y\n- qab\n"),
+    ("tilde-inner-tilde-3", "~~~\n   ~~~~\nx\n~~~\n\nqaa\n"),
+    ("fence4-inner-3-indented", "````\n   ```\nx\n````\n\nqaa\n"),
 ]
 
 
@@ -226,7 +246,7 @@ def special_key(case: dict[str, Any]) -> str:
 # mechanism classes for finding keys (C01/C02/C03)
 # ------------------------------------------------------------------------------------------
 
-WHOLE_LINE = {"---", "--", "***", "___", "_____", "_ _ _", "* * *", "- -", "[x]:", "=", "==="}
+WHOLE_LINE = {"---", "--", "***", "___", "_____", "_ _ _", "* * *", "- -", "[x]:", "=", "===", "** *", "__ _", "**"}
 TAGLIKE = {"tag", "tag-close", "jcomment", "var", "comment", "tag-pair", "quote-tag", "commentnl", "tagnl-before"}
 LIST_MARKERS = {"-", "+", "*", "1.", "1)", "12."}
 
@@ -280,6 +300,7 @@ VERBATIM_WORDS: list[tuple[str, list[str]]] = [
     ("quoted-code", ['"`qza`"', "'`qzb`'..."]),
     ("quoted-tag", ['"{% qza %}"...']),
     ("apos-after-code", ["`qza`'s", "qzb"]),
+    ("possessives", ["qzas'", "qzb's", "qzc'd"]),
     ("link-dest-angle", ["[qza](<a b> 'T')"]),
     ("link-dest-angle-paren", ["[qza](<a(b> \"T\")"]),
     ("image-dest-angle", ["![qza](<my img.png>)"]),
@@ -302,6 +323,11 @@ VERBATIM_BLOCKS: list[tuple[str, str]] = [
     ("code-formfeed", "qaa\n\n```\na\x0cb\nc\u2028d\ne\x1cf\x85g\n```\n\nqab\n"),
     ("code-vtab-cr", "qaa\n\n```\na\x0bb\n```\n\nqab\n"),
     ("refdef-angle", "[qaa][r] qab\n\n[r]: <http://u/a b> \"T\"\n"),
+    ("tag-softbreak", 'qaa {% qza\nk="1...5" j=\'a\' %} qab "qac"... qad\n'),
+    ("comment-softbreak", 'qaa <!-- it\'s\n"x"...y --> qab\'s qac...\n'),
+    ("code-softbreak", 'qaa `it\'s\n"x"...y` qab...\n'),
+    ("dots-one-letter", "qaa...I...qab a...b...c qac\n"),
+    ("dots-lines", "qaa...\n...qab\nqac ...\nqad\n"),
 ]
 
 
